@@ -1,7 +1,7 @@
 """C16 — hydroelastic forces: action-reaction, symmetry, frames (structural clauses)."""
 from . import scopes
 from ..core.report import DOMAIN_D
-from ..rules import eager, hydro, frame
+from ..rules import eager, hydro, frame, sides
 from .common import e1, e2
 
 HY = "distance3d.hydroelastic_contact."
@@ -23,6 +23,7 @@ def run(idx, rep, tier):
     hydro.r_invalidate(idx, rep)
     hydro.r_samepredicate(idx, rep)
     hydro.r_sharedpose(idx, rep)
+    sides.r_sides(idx, rep, [m.name for m in idx.lib_modules() if "hydroelastic" in m.name], floor=10)
     HYM = {m.name for m in idx.lib_modules() if "hydroelastic" in m.name} | {"distance3d.utils"}
     frame.r_frame(idx, rep, e2(idx), modules=HYM, floor=20)
     mods = None        # the property scope (sa/props/scopes.py) selects the functions
